@@ -50,6 +50,7 @@ class Env:
         self.point = point if point is not None else {}
         self.rng = rng or random.Random(0)
         self.inputs = {}          # name -> array as created
+        self.autosample = False   # plain modes: draw a value for names missing from the point
 
     @property
     def sym(self):
@@ -86,6 +87,8 @@ class Env:
         a = np.empty(shape, dtype=dt)
         for idx in np.ndindex(*shape):
             nm = name + "".join("_%d" % i for i in idx)
+            if self.autosample and nm not in self.point:
+                self.point[nm] = self._sample(lo, hi, nonzero)
             a[idx] = self.point[nm]
         self.inputs[name] = a
         return a
@@ -96,6 +99,8 @@ class Env:
             if name not in CTX.model:
                 CTX.model[name] = self.point[name] if name in self.point else self._sample(lo, hi, nonzero)
             return S(n)
+        if self.autosample and name not in self.point:
+            self.point[name] = self._sample(lo, hi, nonzero)
         return float(self.point[name])
 
     def const(self, values, dtype=np.float32):
@@ -109,6 +114,8 @@ class Env:
         a = np.empty(shape, dtype=np.float64)
         for idx in np.ndindex(*shape):
             nm = name + "".join("_%d" % i for i in idx)
+            if self.autosample and nm not in self.point:
+                self.point[nm] = round(0.05 + 0.9 * self.rng.random(), 3)
             a[idx] = self.point[nm]
         return a
 
@@ -221,6 +228,8 @@ def run_symbolic(case, model, rng, profile=False):
     except Unsupported as e:
         pr.error = ("unsupported", repr(e))
         pr.tb = traceback.format_exc(limit=6)
+    except ar.OutOfBoundsView as e:
+        pr.error = ("oob", str(e))
     except RecursionError as e:
         pr.error = ("unsupported", "recursion: " + repr(e))
     except Exception as e:  # noqa: BLE001 - the real code raised
@@ -527,6 +536,18 @@ def decide_case(case, opts):
             break      # one reproduced counterexample per configuration is enough
         if pr.error and pr.error[0] == "unsupported":
             res["inconclusive"].append(pr.error[1])
+            continue
+        if pr.error and pr.error[0] == "oob":
+            # the real code read outside its buffer: replay the very same point on the plain code, where NumPy reads
+            # foreign memory silently, and let the oracle judge the values
+            res["obligations"] += 1
+            cand = {"label": "out-of-bounds strided view", "kind": "value", "detail": pr.error[1], "point": _clean(pr.model)}
+            rep = _replay(case, cand, uses_rng)
+            if rep[0]:
+                cand["replay"] = rep[1]
+                res["violations"].append(cand)
+            else:
+                res["inconclusive"].append("out-of-bounds strided view in the symbolic run; plain replay: " + rep[1])
             continue
         # ---- trace validation (first paths of every case)
         if nvalid < opts.validate_paths:
